@@ -299,6 +299,16 @@ fn length_delimited_decoder(max_frame_size: usize) -> LengthDelimitedCodec {
 }
 
 #[cfg_attr(feature = "tracing", tracing::instrument(name = "SEND", skip_all))]
+#[cfg(fe2o3_amqp_verif)]
+pub(crate) fn verif_length_delimited_encoder(max_frame_size: usize) -> LengthDelimitedCodec {
+    length_delimited_encoder(max_frame_size)
+}
+
+#[cfg(fe2o3_amqp_verif)]
+pub(crate) fn verif_length_delimited_decoder(max_frame_size: usize) -> LengthDelimitedCodec {
+    length_delimited_decoder(max_frame_size)
+}
+
 pub(crate) async fn send_amqp_proto_header<W>(
     framed_write: &mut FramedWrite<W, ProtocolHeaderCodec>,
     local_state: &mut ConnectionState,
